@@ -87,6 +87,9 @@ class FaultyFile(object):
         return self._fs.fault_point(kind, self._path, data)
 
     def read(self, *a):
+        if a and a[0] == 0:
+            # a zero-length read never reaches the host
+            return self._f.read(*a)
         act = self._pt('read')
         if act and act.get('short') is not None:
             data = self._f.read(*a)
